@@ -1,0 +1,167 @@
+//go:build verif
+
+package lua
+
+// Verification hooks for the value stack / call-frame stack / registry checks (C10, C12).
+// Thin exported wrappers that drive the unexported callFrameStack implementations and the
+// registry directly, plus two readers. Nothing here changes behaviour of the library.
+
+import "fmt"
+
+// VerifSp is the current call-stack depth of L.
+func VerifSp(L *LState) int { return L.stack.Sp() }
+
+// VerifRegTop is the absolute top of L's registry.
+func VerifRegTop(L *LState) int { return L.reg.Top() }
+
+// VerifLocalBase is the register index of the first cell of the current activation.
+func VerifLocalBase(L *LState) int { return L.currentLocalBase() }
+
+// VerifRegCell reads one raw registry cell of L (nil = the Go nil interface); ok=false outside the array.
+func VerifRegCell(L *LState, i int) (v LValue, ok bool) {
+	if i < 0 || i >= len(L.reg.array) {
+		return nil, false
+	}
+	return L.reg.array[i], true
+}
+
+// VerifRegCap is the current capacity of L's registry.
+func VerifRegCap(L *LState) int { return cap(L.reg.array) }
+
+// VerifStackIsAuto tells which call-frame stack implementation L uses.
+func VerifStackIsAuto(L *LState) bool {
+	_, ok := L.stack.(*autoGrowingCallFrameStack)
+	return ok
+}
+
+// VerifStackIsFull is L.stack.IsFull().
+func VerifStackIsFull(L *LState) bool { return L.stack.IsFull() }
+
+/* call-frame stacks ------------------------------------------------------------------------ */
+
+// VerifFrame is the projection of a callFrame the checks look at: the tag the driver put into
+// NArgs and the Idx field maintained by Push. Nil reports a nil *callFrame.
+type VerifFrame struct {
+	Nil bool
+	Tag int
+	Idx int
+}
+
+func verifFrame(cf *callFrame) VerifFrame {
+	if cf == nil {
+		return VerifFrame{Nil: true}
+	}
+	return VerifFrame{Tag: cf.NArgs, Idx: cf.Idx}
+}
+
+// VerifCallStack drives one callFrameStack implementation.
+type VerifCallStack struct{ s callFrameStack }
+
+func VerifFixedStack(size int) *VerifCallStack {
+	return &VerifCallStack{newFixedCallFrameStack(size)}
+}
+
+func VerifAutoStack(maxSize int) *VerifCallStack {
+	return &VerifCallStack{newAutoGrowingCallFrameStack(maxSize)}
+}
+
+// Push pushes a frame carrying tag (in NArgs) and a deliberately wrong Idx.
+func (v *VerifCallStack) Push(tag int)     { v.s.Push(callFrame{NArgs: tag, Idx: -7}) }
+func (v *VerifCallStack) Pop() VerifFrame  { return verifFrame(v.s.Pop()) }
+func (v *VerifCallStack) Last() VerifFrame { return verifFrame(v.s.Last()) }
+func (v *VerifCallStack) At(sp int) VerifFrame {
+	return verifFrame(v.s.At(sp))
+}
+func (v *VerifCallStack) SetSp(sp int)  { v.s.SetSp(sp) }
+func (v *VerifCallStack) Sp() int       { return v.s.Sp() }
+func (v *VerifCallStack) IsFull() bool  { return v.s.IsFull() }
+func (v *VerifCallStack) IsEmpty() bool { return v.s.IsEmpty() }
+func (v *VerifCallStack) FreeAll()      { v.s.FreeAll() }
+
+// VerifDirtySegmentPool puts n segments filled with junk frames into the segment pool, so that
+// the auto-growing stack is handed dirty segments.
+func VerifDirtySegmentPool(n int, junk int) {
+	for i := 0; i < n; i++ {
+		seg := &callFrameStackSegment{}
+		for j := range seg.array {
+			seg.array[j] = callFrame{NArgs: junk + j, Idx: junk, Pc: junk, Base: junk}
+		}
+		freeCallFrameStackSegment(seg)
+	}
+}
+
+/* registry ---------------------------------------------------------------------------------- */
+
+type verifOverflow struct{}
+
+// VerifRegistry drives a registry whose overflow handler records the event and aborts the
+// operation (as LState.registryOverflow does by raising an error).
+type VerifRegistry struct {
+	rg        *registry
+	Overflows int
+}
+
+func (v *VerifRegistry) registryOverflow() {
+	v.Overflows++
+	panic(verifOverflow{})
+}
+
+func VerifNewRegistry(initialSize, growBy, maxSize int) *VerifRegistry {
+	v := &VerifRegistry{}
+	v.rg = newRegistry(v, initialSize, growBy, maxSize, newAllocator(32))
+	return v
+}
+
+// guard runs f; it returns "" normally, "overflow" when the handler fired, "fault: ..." on a Go runtime panic.
+func (v *VerifRegistry) guard(f func()) (status string) {
+	defer func() {
+		if r := recover(); r != nil {
+			if _, ok := r.(verifOverflow); ok {
+				status = "overflow"
+				return
+			}
+			s := fmt.Sprint(r)
+			if len(s) > 120 {
+				s = s[:120]
+			}
+			status = "fault: " + s
+		}
+	}()
+	f()
+	return ""
+}
+
+func (v *VerifRegistry) Top() int { return v.rg.Top() }
+func (v *VerifRegistry) Cap() int { return cap(v.rg.array) }
+func (v *VerifRegistry) Push(x LValue) string {
+	return v.guard(func() { v.rg.Push(x) })
+}
+func (v *VerifRegistry) Pop() (x LValue, status string) {
+	status = v.guard(func() { x = v.rg.Pop() })
+	return
+}
+func (v *VerifRegistry) Get(reg int) (x LValue, status string) {
+	status = v.guard(func() { x = v.rg.Get(reg) })
+	return
+}
+func (v *VerifRegistry) Set(reg int, x LValue) string {
+	return v.guard(func() { v.rg.Set(reg, x) })
+}
+func (v *VerifRegistry) SetTop(top int) string {
+	return v.guard(func() { v.rg.SetTop(top) })
+}
+func (v *VerifRegistry) CopyRange(regv, start, limit, n int) string {
+	return v.guard(func() { v.rg.CopyRange(regv, start, limit, n) })
+}
+func (v *VerifRegistry) FillNil(regm, n int) string {
+	return v.guard(func() { v.rg.FillNil(regm, n) })
+}
+func (v *VerifRegistry) Insert(x LValue, reg int) string {
+	return v.guard(func() { v.rg.Insert(x, reg) })
+}
+func (v *VerifRegistry) IsFull() bool { return v.rg.IsFull() }
+
+// ForceResize is registry.forceResize (used by LState.raiseError to make room for the message).
+func (v *VerifRegistry) ForceResize(n int) string {
+	return v.guard(func() { v.rg.forceResize(n) })
+}
